@@ -43,6 +43,7 @@ def run(ctx: Any, prog: Program) -> None:
     ctx.rule('C13.Z7', 'write_dirfile either always writes or its skip flag is set by every mutating method', floor=1)
     ctx.rule('C13.Z8', 'the directory string reader keeps what it has read across iterations (no per-iteration reset before `continue`)', floor=1)
     ctx.rule('C13.Z6', 'preload length fits the 16-bit directory field', floor=1)
+    ctx.rule('C13.Z10', 'blocks of a buffer are moved within that buffer only in increasing offset order (in-place compaction)', floor=1)
     ctx.rule('C13.Z9', 'a sub-tree of the file index is dropped only when that very container is empty', floor=2)
 
     # ---- Z1 ------------------------------------------------------------------------------------------------
@@ -113,6 +114,18 @@ def run(ctx: Any, prog: Program) -> None:
                         if src.startswith('not'):
                             par = vpk.parents.get(nd.stmt)
                             ok = ok and isinstance(par, ast.If) and any(isinstance(x, ast.Raise) for x in par.body)
+            if not ok and name.startswith('_') and not name.startswith('__'):
+                # a private helper without a guard of its own: sound when every call of it comes after the guard of its caller
+                callers = [(cn2, cf) for cn2, cf in methods.items() if cn2 != name and any(isinstance(c, ast.Call) and dotted(c.func) == f'self.{name}' for c in walk_no_nested(cf))]
+                all_guarded = bool(callers)
+                for cn2, cf in callers:
+                    g2 = build_cfg(cf, lambda s_: False)
+                    guards2 = {nd.id for nd in g2.nodes if nd.stmt is not None and ((nd.kind == 'stmt' and '_check_writable()' in ast.unparse(nd.stmt)) or (nd.kind == 'test' and 'writable' in ast.unparse(nd.stmt)))}
+                    calls2 = {nd.id for nd in g2.nodes if nd.stmt is not None and nd.kind in ('stmt', 'with', 'return') and f'self.{name}(' in ast.unparse(nd.stmt)}
+                    if not guards2 or g2.find_path(g2.entry, calls2, removed_nodes=guards2) is not None:
+                        all_guarded = False
+                if all_guarded:
+                    ok = True
             ctx.check('C13.Z1', ok, vpk, fn, f'{cname}.{name} mutates {sorted(set(muts))[:3]} on a path that does not pass the writable-mode guard' + (f': {g.describe(p)[:150]}' if p else ''),
                       func=f'{cname}.{name}', text=f'{cname}.{name} guarded')
     # ---- Z2 ------------------------------------------------------------------------------------------------
@@ -295,6 +308,29 @@ def run(ctx: Any, prog: Program) -> None:
                 sets_flag = any(isinstance(n, ast.Assign) and isinstance(n.targets[0], ast.Attribute) and n.targets[0].attr == flag and isinstance(n.value, ast.Constant) and n.value.value is True for n in ast.walk(fn))
                 ctx.check('C13.Z7', sets_flag, vpk, fn, f'write_dirfile() returns early while `self.{flag}` is false, but {owner}.{name} changes the archive ({m_[0]}) without setting it: a session consisting only of such '
                           'operations is never written, and the reopened archive still has the old content', func=f'{owner}.{name}', text=f'{owner}.{name} sets the {flag} flag')
+    # ---- Z10: in-place moves ---------------------------------------------------------------------------------------------
+    def inplace_moves(tree: ast.AST) -> List[Tuple[ast.AST, Optional[ast.AST]]]:
+        """(`buf[a:b] = buf[c:d]` statement, enclosing for loop)"""
+        par: Dict[ast.AST, ast.AST] = {}
+        for n_ in ast.walk(tree):
+            for ch in ast.iter_child_nodes(n_):
+                par[ch] = n_
+        out_ = []
+        for a in ast.walk(tree):
+            if isinstance(a, ast.Assign) and isinstance(a.targets[0], ast.Subscript) and isinstance(a.targets[0].slice, ast.Slice) and isinstance(a.value, ast.Subscript) and isinstance(a.value.slice, ast.Slice) \
+                    and dotted(a.targets[0].value) is not None and dotted(a.targets[0].value) == dotted(a.value.value):
+                lp = par.get(a)
+                while lp is not None and not isinstance(lp, (ast.For, ast.While)):
+                    lp = par.get(lp)
+                out_.append((a, lp))
+        return out_
+    probe = ast.parse('def f(buf, infos):\n    pos = 0\n    for info in infos:\n        buf[pos:pos + info.n] = buf[info.off:info.off + info.n]\n        info.off = pos\n        pos += info.n\n')
+    ctx.check('C13.Z10', len(inplace_moves(probe)) == 1, vpk, vpk.tree, 'self-check of the detector on a known in-place block move', func='<detector>', text='in-place move probe is recognised')
+    for mv, lp in inplace_moves(vpk.tree):
+        its = ast.unparse(lp.iter) if isinstance(lp, ast.For) else ''
+        ordered = isinstance(lp, ast.For) and isinstance(lp.iter, ast.Call) and dotted(lp.iter.func) == 'sorted' and 'offset' in its and not any(k.arg == 'reverse' for k in lp.iter.keywords)
+        ctx.check('C13.Z10', ordered, vpk, mv, f'`{ast.unparse(mv)[:80]}` moves a block inside the buffer it is read from' + (f' while iterating `{its[:50]}`' if its else '') + ': sliding blocks towards the start is only safe when they are '
+                  'visited in increasing offset order - in directory order a block moved early overwrites a live block that is visited later (the file then reads another file\'s bytes)', text='in-place block move in offset order')
     # ---- Z9 ------------------------------------------------------------------------------------------------
     # _fileinfo is ext -> folder -> name -> FileInfo and the archive root is the folder ''.  Dropping a level is right only when the
     # container one level down is empty; a test on something else (e.g. any(folders): truthiness of the KEYS, false for the root folder
@@ -415,6 +451,28 @@ def run(ctx: Any, prog: Program) -> None:
                       '(and a change beyond it is not noticed by the same-data shortcut)', func='FileInfo.write', text='crc of full data')
         else:
             ctx.shape('C13.Z5', False, vpk, crc_src[0], 'checksum argument not recognised', func='FileInfo.write', text='crc of full data')
+    # amount read from a numbered archive: exactly arch_len bytes - one read of that size, or a loop whose every read is bounded by what
+    # is still missing.  A block loop that bounds each read by arch_len (or by the block size alone) runs into the next file's data.
+    for mname in ('read', 'verify'):
+        mfn = fm[mname]
+        for rd in [c for c in ast.walk(mfn) if isinstance(c, ast.Call) and isinstance(c.func, ast.Attribute) and c.func.attr == 'read' and c.args and isinstance(c.func.value, ast.Name)]:
+            loop = None
+            cur_ = vpk.parents.get(rd)
+            while cur_ is not None and cur_ is not mfn:
+                if isinstance(cur_, (ast.While, ast.For)):
+                    loop = cur_
+                    break
+                cur_ = vpk.parents.get(cur_)
+            size = rd.args[0]
+            if loop is None:
+                ctx.check('C13.Z5', dotted(size) == 'self.arch_len', vpk, rd, f'FileInfo.{mname} reads `{ast.unparse(size)}` bytes from the archive in one go; the entry is self.arch_len bytes long', func=f'FileInfo.{mname}',
+                          text=f'{mname}: archive read covers arch_len')
+                continue
+            # counters decremented inside the loop
+            counters = {dotted(a.target) for a in ast.walk(loop) if isinstance(a, ast.AugAssign) and isinstance(a.op, ast.Sub)}
+            uses_counter = any(isinstance(x, ast.Name) and x.id in counters for x in ast.walk(size))
+            ctx.check('C13.Z5', uses_counter, vpk, rd, f'FileInfo.{mname} reads `{ast.unparse(size)}` bytes per round of a loop that counts down {sorted(c for c in counters if c)}: the size does not depend on what is still missing, '
+                      'so the last round reads past the end of the entry into the next file stored in the same archive (verify() then fails although read() is right)', func=f'FileInfo.{mname}', text=f'{mname}: archive read covers arch_len')
     v = fm['verify']
     vsrc = ast.unparse(v)
     ok = 'chk = checksum(self.start_data)' in vsrc and vsrc.count('chk)') + vsrc.count(', chk') >= 2 and 'return chk == self.crc' in vsrc
@@ -450,6 +508,9 @@ def run(ctx: Any, prog: Program) -> None:
         ctx.shape('C13.Z6', False, vpk, w, 'preload slice bound not recognised', func='FileInfo.write', text='preload bounded to 16 bits')
 
 MUTANTS = [
+    {'id': 'footer_compacted_in_directory_order', 'file': 'vpk.py', 'find': "    def __iter__(self) -> Iterator[FileInfo]:\n        \"\"\"Yield all FileInfo objects.\"\"\"", 'replace': "    def _compact_footer(self) -> None:\n        footer = bytearray(self.footer_data)\n        pos = 0\n        for info in self:\n            if info.arch_index is not None or not info.arch_len:\n                continue\n            if info.offset != pos:\n                footer[pos: pos + info.arch_len] = footer[info.offset: info.offset + info.arch_len]\n                info.offset = pos\n            pos += info.arch_len\n        del footer[pos:]\n        self.footer_data = bytes(footer)\n\n    def __iter__(self) -> Iterator[FileInfo]:\n        \"\"\"Yield all FileInfo objects.\"\"\"", 'expect': 'C13.Z10'},
+    {'id': 'verify_blockwise_overreads', 'file': 'vpk.py', 'find': "                    chk = checksum(\n                        data.read(self.arch_len),\n                        chk,\n                    )", 'replace': "                    remaining = self.arch_len\n                    while remaining > 0:\n                        block = data.read(min(self.arch_len, 65536))\n                        if not block:\n                            return False\n                        chk = checksum(block, chk)\n                        remaining -= len(block)", 'expect': 'C13.Z5'},
+    {'id': 'verify_blockwise_correct', 'file': 'vpk.py', 'find': "                    chk = checksum(\n                        data.read(self.arch_len),\n                        chk,\n                    )", 'replace': "                    remaining = self.arch_len\n                    while remaining > 0:\n                        block = data.read(min(remaining, 65536))\n                        if not block:\n                            return False\n                        chk = checksum(block, chk)\n                        remaining -= len(block)", 'expect': None, 'refuse_ok': True},
     {'id': 'ext_dropped_when_no_truthy_folder', 'file': 'vpk.py', 'find': "            if not folders:\n                # Clear extension too.", 'replace': "            if not any(folders):\n                # Clear extension too.", 'expect': 'C13.Z9'},
     {'id': 'ext_dropped_len_zero', 'file': 'vpk.py', 'find': "            if not folders:\n                # Clear extension too.", 'replace': "            if len(folders) == 0:\n                # Clear extension too.", 'expect': None},
     {'id': 'delitem_unguarded', 'file': 'vpk.py', 'find': "        self._check_writable()\n\n        path, filename, ext = _get_file_parts(item)\n\n        try:\n            folders = self._fileinfo[ext]", 'replace': "        path, filename, ext = _get_file_parts(item)\n\n        try:\n            folders = self._fileinfo[ext]", 'expect': 'C13.Z1'},
